@@ -41,6 +41,8 @@ def run_block(prop, tier, first, count, out_path, plain=False, keep_logs=False):
     seams.install()
     from sim import stepclock as SC
     eng = engine_for(prop)
+    if hasattr(eng, "prepare"):
+        eng.prepare()
     total, digests, violations, samples = {}, [], [], []
     t0 = time.time()
     for seed in range(first, first + count):
@@ -69,6 +71,8 @@ def do_replay(trace_path, out_path):
     with open(trace_path) as f:
         trace = json.load(f)
     eng = engine_for(trace["property"])
+    if hasattr(eng, "prepare"):
+        eng.prepare()
     violation, index, digest = eng.replay(trace["property"], trace)
     out = {"violation": violation.as_dict() if violation is not None else None, "index": index, "digest": digest,
            "tree": seams.repo_tree_digest()}
@@ -82,6 +86,8 @@ def do_minimise(trace_path, out_path, max_exec=400):
     with open(trace_path) as f:
         trace = json.load(f)
     eng = engine_for(trace["property"])
+    if hasattr(eng, "prepare"):
+        eng.prepare()
     small, executions = minimise.minimise(eng, trace, max_exec=max_exec)
     small["minimised"] = True
     small["original_ops"] = len(trace["ops"])
